@@ -2,7 +2,7 @@
    facts below are proved for all inputs; the trace-level happens-before
    theorem of the design is NOT mechanised (see MANIFEST level note). *)
 Require Import NX.Base.Prelude NX.Base.ListX NX.Model.PQ NX.Model.Sim.
-Require Import NX.Proofs.SimBasic NX.Proofs.SimSched NX.Proofs.NetProofs.
+Require Import NX.Proofs.SimBasic NX.Proofs.SimSched NX.Proofs.NetProofs NX.Proofs.NetTrace.
 
 (* In every step of every schedule, every mailbox either stays as it is, loses
    its HEAD (its owner starts that message) or gains ONE message at its TAIL:
@@ -36,6 +36,27 @@ Theorem c02_enqueue_at_tail :
     nth_error (boxes s') m = Some (q ++ [g]) /\ length q < mcap sp /\ inflight s' = (inflight s + 1)%Z.
 Proof. exact deliver_appends. Qed.
 Print Assumptions c02_enqueue_at_tail.
+
+(* Trace level, for ANY execution (any sequence of enabled steps = any schedule,
+   any number of steps) and any mailbox: its content is its initial content
+   followed by the messages enqueued into it, in enqueue order, minus the prefix
+   consumed by its owner.  Nothing lost, duplicated, reordered or invented; the
+   owner consumes exactly the first deqs messages, in order. *)
+Theorem c02_mailbox_trace :
+  forall b ls s s' m q,
+    net_exec b s ls = Some s' -> nth_error (boxes s) m = Some q ->
+    deqs b s ls m <= length (q ++ enqs b s ls m) /\
+    nth_error (boxes s') m = Some (skipn (deqs b s ls m) (q ++ enqs b s ls m)).
+Proof. exact mailbox_trace. Qed.
+Print Assumptions c02_mailbox_trace.
+
+(* a run of the executor under any choice sequence is such an execution, ending
+   in a state where no step is enabled *)
+Theorem c02_mailbox_trace_run :
+  forall b fuel ch s nd s' nd',
+    net_run b fuel ch s nd = Some (s', nd') -> exists ls, net_exec b s ls = Some s' /\ net_enabled b s' = [].
+Proof. exact net_run_is_exec. Qed.
+Print Assumptions c02_mailbox_trace_run.
 
 (* The triangle of the documentation (A -> B, then A -> C, C -> B) with
    capacity-1 mailboxes: B handles M1 before M3 under every choice list of
